@@ -56,6 +56,17 @@ CLAIMED = {
         'power loss (no fsync reasoning). Bounded leg: a child process is killed before every k-th source line of both writers after a first checkpoint exists; the checkpoint must exist, '
         'load, be internally consistent and continue.',
    tech='contract-based deductive verification with ghost file-system state (crash invariant at every event)', ref='7 C06'),
+ 'C07': dict(
+   text='Deductive proof that the concrete classes implement the abstract bound API the Sampler proofs rely on: UnitCube (coordinates): contains is membership in [0,1)^d and every '
+        'sample is contained; Ellipsoid (abstract vector algebra): contains is the open unit ball in the Cholesky frame, every sample is contained (radius u^(1/d) < 1 times a unit '
+        'vector), compute() encloses every construction point when enlarge > 1, and the rescaling block of the MVEE routine yields form <= 1 with a coherently scaled inverse; Union '
+        '(members abstract): contains is any-member AND cube, every sample is contained and inside the cube when restricted to it (cache + loop invariant); NeuralBound: contains implies '
+        'the outer ellipsoid; NautilusBound: contains is outer union AND some neural bound (in the shifted frame), serial and pool sampling return exactly n rows that contains() accepts '
+        'and that lie in the unit cube (uses the shift inverse law of C16).',
+   note=TRUST + 'Linear-algebra laws (inverse, Cholesky, quadratic-form scaling, sqrt) are axioms of the vector algebra; a Gaussian vector is non-zero; pickled worker copies keep the geometry; '
+        'emulator row-wise. UnitCubeEllipsoidMixture (column projections) and "stays contained after any sequence of splits" have no proof here: bounded runtime check (check_c07.py); '
+        'split keeping every point in one of the new members is C13\'s partition post.',
+   tech='contract-based deductive verification over abstract membership predicates and a vector algebra, z3 (NRA)', ref='7 C07'),
  'C09': dict(
    text='Deductive proof by symbolic execution of the real write followed by the real read on an HDF5 group model, per class: UnitCube, Ellipsoid, PhaseShift, '
         'UnitCubeEllipsoidMixture (all three cube/ellipsoid shapes) and Union (restricted to the unit cube or not; any number of members, any split/trim/sampling state, members abstract): '
